@@ -33,6 +33,16 @@ def ROp.keyOk (n : Nat) : ROp → Prop
   | .h op => op.keyOk n
   | _ => True
 
+theorem stdIdx_lt (c : Cfg) (n : Bytes) (k : Nat) (h : stdIdx c n = some k) : k < c.n := by
+  unfold stdIdx at h
+  have := List.findIdx?_eq_some_iff_getElem.mp h
+  obtain ⟨hlt, _⟩ := this
+  exact hlt
+
+theorem resolveX_keyOk (c : Cfg) (h : Headers) (op : XOp) : (resolveX c h op).keyOk c.n := by
+  cases op <;> simp only [resolveX] <;> split <;> simp only [HOp.keyOk] <;>
+    first | trivial | (rename_i k hk; exact stdIdx_lt c _ k hk)
+
 theorem RInv_new (c : Cfg) (ok : c.OK) (status : Nat) (date : Bytes) : RInv c (new c status date) := by
   unfold new
   apply RInv_hop _ _ _ _ (by simpa [HOp.keyOk] using ok.cl)
@@ -43,6 +53,7 @@ theorem RInv_applyOp (c : Cfg) (ok : c.OK) (r : Resp) (op : ROp) (hi : RInv c r)
     RInv c (applyOp c r op) := by
   cases op with
   | h op => exact RInv_hop c r op hi hk
+  | x op => exact RInv_hop c r _ hi (resolveX_keyOk c r.headers op)
   | payload ct b =>
     simp only [applyOp, setPayload]
     show RInv c (hop c (hop c r (.insert c.kCT ct)) (.insert c.kCL (dec b.length)))
